@@ -1699,3 +1699,50 @@ func versionAtLeast(v string, a, b, c int) bool {
 	}
 	return true
 }
+
+// AssignedColumns returns the column names assigned by every UPDATE (and ON DUPLICATE KEY UPDATE) in the SQL text.
+func AssignedColumns(query string) []string {
+	p := aparser.New()
+	nodes, _, err := p.Parse(query, "", "")
+	if err != nil {
+		return nil
+	}
+	var out []string
+	for _, n := range nodes {
+		switch st := n.(type) {
+		case *ast.UpdateStmt:
+			for _, a := range st.List {
+				out = append(out, a.Column.Name.O)
+			}
+		case *ast.InsertStmt:
+			for _, a := range st.OnDuplicate {
+				out = append(out, a.Column.Name.O)
+			}
+		}
+	}
+	return out
+}
+
+// InsertColumns returns the explicit column list of an INSERT (nil when the statement names no columns).
+func InsertColumns(query string) []string {
+	p := aparser.New()
+	nodes, _, err := p.Parse(query, "", "")
+	if err != nil || len(nodes) != 1 {
+		return nil
+	}
+	st, ok := nodes[0].(*ast.InsertStmt)
+	if !ok {
+		return nil
+	}
+	var out []string
+	for _, c := range st.Columns {
+		out = append(out, c.Name.O)
+	}
+	return out
+}
+
+// TextOf renders a value as the text protocol would (no column context).
+func TextOf(v Value) []byte { return textOf(nil, v) }
+
+// ColIndexPublic is the index of the named column (case-insensitive), -1 if absent.
+func (t *Table) ColIndexPublic(name string) int { return t.colIndex(name) }
